@@ -97,6 +97,11 @@ fn enumerate_cfgs(spec: &FileSpec, seed: u64, fault_cap: usize, baseline_len: us
 			faults: vec![],
 			recover: false,
 		});
+		if vectored {
+			for n in [1usize, 2] {
+				cfgs.push(SinkCfg { plan: AcceptPlan::WholeSlices(n), vectored, faults: vec![], recover: false });
+			}
+		}
 	}
 	// fault enumeration on two base plans
 	let bases = [
@@ -134,6 +139,16 @@ fn enumerate_cfgs(spec: &FileSpec, seed: u64, fault_cap: usize, baseline_len: us
 					at_call: i,
 					kind: SinkFaultKind::Interrupted,
 				}],
+				..base.clone()
+			});
+		}
+		// an interruption followed, later in the same history, by a hard fault
+		for w in idxs.windows(2).step_by(5) {
+			cfgs.push(SinkCfg {
+				faults: vec![
+					SinkFault { at_call: w[0], kind: SinkFaultKind::Interrupted },
+					SinkFault { at_call: w[1] + 1, kind: SinkFaultKind::Hard(IoErrKind::Other) },
+				],
 				..base.clone()
 			});
 		}
